@@ -1149,6 +1149,34 @@ func projectTerm(v *T, path string, typ types.Type) *T {
 }
 
 func (r *pxRun) store(st *pxState, fr *pxFrame, a, v *T, in ssa.Instruction) {
+	// element store into a slice whose elements are known on this path: every reference to that
+	// slice value held by the frames / memory of this path sees the new element
+	if a.Op == "iaddr" && a.A[0].Op == "elems" && a.A[0].HasEl {
+		if n, ok := a.A[1].intVal(); ok && n >= 0 && int(n) < len(a.A[0].Elems) {
+			old := a.A[0]
+			nw := &T{Op: "elems", HasEl: true, Typ: old.Typ, Elems: append([]*T{}, old.Elems...)}
+			nw.Elems[n] = v
+			for f := fr; f != nil; f = f.parent {
+				for k, t := range f.env {
+					if t == old {
+						f.env[k] = nw
+					}
+				}
+				for i, t := range f.args {
+					if t == old {
+						f.args = append([]*T{}, f.args...)
+						f.args[i] = nw
+					}
+				}
+			}
+			for k, t := range st.mem {
+				if t == old {
+					st.mem[k] = nw
+				}
+			}
+			return
+		}
+	}
 	if k := addrKey(a); k != "" {
 		for key := range st.mem {
 			if strings.HasPrefix(key, k+".") || strings.HasPrefix(key, k+"[") {
